@@ -3,7 +3,14 @@
 From LR Require Import lib.Base model.TIndex.
 
 (* the proofs do not look at the value of the repair switch *)
+(* the limit test of GetJournals, for both values of the switch (before limit_hit is made opaque) *)
+Lemma limit_hit_incl n limit : gj_limit_inclusive = true -> (limit_hit n limit = true <-> limit < n).
+Proof. intros H. unfold limit_hit. rewrite H. cbn [limit_hit_g]. apply Nat.ltb_lt. Qed.
+Lemma limit_hit_old n limit : limit_hit_g false n limit = true <-> n = limit.
+Proof. cbn [limit_hit_g]. apply Nat.eqb_eq. Qed.
+
 Opaque gj_releases_failed.
+Opaque limit_hit.
 
 (* ------------------------------------------------------------------ lists, upd, get *)
 
@@ -597,7 +604,7 @@ Proof.
   - (* CCb *) unfold wf in W. cbn in W. destruct W as (V & Hin). fin. unfold callback. cbn [a_cur a_f].
     destruct cur; try discriminate.
     + (* PVisit *) destruct (opt_is abort (f_n f)); loc I Ha.
-    + (* PQuery *) destruct (opt_is failat (f_n f)); [destruct gj_releases_failed|destruct (Nat.eqb (S (length (f_res f))) limit)]; loc I Ha.
+    + (* PQuery *) destruct (opt_is failat (f_n f)); [destruct gj_releases_failed|destruct (limit_hit (S (length (f_res f))) limit)]; loc I Ha.
     + (* PTrunc *) destruct (mem (tag_of (s_ix s) x) zero).
       * loc I Ha.
       * unfold trunc_cont. cbn [a_cur a_f with_cf f_glob f_n]. destruct (opt_is cancel (f_n f)); loc I Ha.
@@ -862,7 +869,7 @@ Proof.
     + unfold quiet_proc in Q2. destruct (opt_is failat (f_n f)) eqn:OI.
       * unfold quiet. cbn [a_prog a_cur a_lost with_cf]. unfold quiet_proc at 2.
         destruct gj_releases_failed; [repeat split; auto|]. destruct failat; cbn in Q2, OI; discriminate.
-      * destruct (Nat.eqb (S (length (f_res f))) limit); repeat split; auto.
+      * destruct (limit_hit (S (length (f_res f))) limit); repeat split; auto.
     + destruct (mem (tag_of ix x) zero); repeat split; auto.
   - destruct st; [destruct (lockx ix x) as [ix0 []]| |destruct (unlockx ix x)| |destruct (unlockx ix x)]; injection E as <- <- <- <-; auto.
   - injection E as <- <- <- <-. unfold after_visit. cbn [a_cur]. destruct cur; auto.
@@ -1085,7 +1092,7 @@ Proof.
   - destruct W as (V & Hin). injection E as <- <- <- <-. unfold callback. cbn [a_cur a_f].
     destruct cur; try discriminate.
     + destruct (opt_is abort (f_n f)); noinc.
-    + destruct (opt_is failat (f_n f)); [destruct gj_releases_failed|destruct (Nat.eqb (S (length (f_res f))) limit)]; noinc.
+    + destruct (opt_is failat (f_n f)); [destruct gj_releases_failed|destruct (limit_hit (S (length (f_res f))) limit)]; noinc.
     + destruct (mem (tag_of ix x) zero); [noinc|]. unfold trunc_cont. cbn [a_cur a_f with_cf f_glob f_n]. destruct (opt_is cancel (f_n f)); noinc.
   - assert (DONE : forall p, ~ holds {| a_prog := prog; a_cur := cur; a_ctl := CDj x st glob; a_f := f; a_lost := lost |} p <
                               holds (dj_done {| a_prog := prog; a_cur := cur; a_ctl := CDj x st glob; a_f := f; a_lost := lost |} x glob) p).
@@ -1203,7 +1210,7 @@ Proof.
   - destruct W as (V & Hin). injection E as <- <- <-. unfold callback, trunc_cont. cbn [a_cur a_f with_cf f_glob f_n].
     destruct cur; try discriminate.
     + destruct (opt_is abort (f_n f)); ms.
-    + destruct (opt_is failat (f_n f)); [destruct gj_releases_failed|destruct (Nat.eqb (S (length (f_res f))) limit)]; ms.
+    + destruct (opt_is failat (f_n f)); [destruct gj_releases_failed|destruct (limit_hit (S (length (f_res f))) limit)]; ms.
     + destruct (mem (tag_of ix x) zero); [ms|]. destruct (opt_is cancel (f_n f)); ms.
   - assert (CUR : glob = false -> is_trunc cur = true) by (intros ->; destruct W; auto).
     destruct st.
